@@ -17,6 +17,7 @@ import (
 
 	"github.com/temporalio/s2s-proxy/config"
 	"github.com/temporalio/s2s-proxy/encryption"
+	"github.com/temporalio/s2s-proxy/internal/vhook"
 	"github.com/temporalio/s2s-proxy/logging"
 )
 
@@ -484,6 +485,7 @@ func (sm *shardManagerImpl) retryJoinCluster() {
 func (sm *shardManagerImpl) RegisterShard(clientShardID history.ClusterShardID) time.Time {
 	sm.logger.Info("RegisterShard", tag.NewStringTag("shard", ClusterShardIDtoString(clientShardID)))
 	registeredAt := sm.addLocalShard(clientShardID)
+	vhook.At("sm.register.afterAdd", "node", sm.GetNodeName(), "shard", clientShardID, "at", registeredAt)
 	sm.broadcastShardChange("register", clientShardID)
 
 	// Trigger memberlist metadata update to propagate NodeMeta to other nodes
@@ -519,6 +521,7 @@ func (sm *shardManagerImpl) UnregisterShard(clientShardID history.ClusterShardID
 		delete(sm.localShards, key)
 		// Update metrics after local shards change
 		sm.mutex.Unlock()
+		vhook.At("sm.unregister.window", "node", sm.GetNodeName(), "shard", clientShardID, "at", expectedRegisteredAt)
 
 		sm.removeLocalShard(clientShardID)
 		sm.broadcastShardChange("unregister", clientShardID)
@@ -1007,6 +1010,7 @@ func (sd *shardDelegate) NotifyMsg(data []byte) {
 			sd.manager.mutex.RLock()
 			localShard, ok := sd.manager.localShards[ClusterShardIDtoShortString(msg.ClientShard)]
 			sd.manager.mutex.RUnlock()
+			vhook.At("sm.notifymsg.afterRead", "node", sd.manager.GetNodeName(), "shard", msg.ClientShard, "from", msg.NodeName)
 			if ok {
 				if localShard.Created.Before(msg.Timestamp) {
 					// Force unregister the local shard by passing its own timestamp
